@@ -256,6 +256,9 @@ def WPred.expandSelf (to : Ty) : WPred → WPred
 structure Generics where
   params : List GParam := []
   wheres : List WPred := []
+  /-- `<T,>` / `where T: X,`: a trailing comma as written (kept wherever the list is re-emitted as a whole) -/
+  trailingParams : Bool := false
+  trailingWhere : Bool := false
 deriving Inhabited
 
 def GParam.name : GParam → String
@@ -287,14 +290,22 @@ def GParam.useToks (p : GParam) : Toks := [p.name]
 /-- syn prints lifetimes first in `impl<…>` and `Type<…>` positions -/
 def ltFirst (ps : List GParam) : List GParam := ps.filter (·.isLt) ++ ps.filter (!·.isLt)
 
-def Generics.declToks (g : Generics) : Toks :=
-  if g.params.isEmpty then [] else angle (sepBy "," (g.params.map GParam.declToks))
-def Generics.implToks (g : Generics) : Toks :=
-  if g.params.isEmpty then [] else angle (sepBy "," ((ltFirst g.params).map GParam.implToks))
-def Generics.useToks (g : Generics) : Toks :=
-  if g.params.isEmpty then [] else angle (sepBy "," ((ltFirst g.params).map GParam.useToks))
+/-- syn prints lifetimes first — in the declaration, in `impl<…>` and in `Type<…>` position alike — and every
+parameter with the comma that followed it in the source: a trailing comma appears iff the parameter printed last was
+followed by one, i.e. the list was written with a trailing comma or ends (as written) in a lifetime that is moved forward -/
+def Generics.printedTrailing (g : Generics) : Bool :=
+  if (g.params.filter (!·.isLt)).isEmpty then g.trailingParams
+  else g.trailingParams || (match g.params.getLast? with | some p => p.isLt | none => false)
+
+def Generics.angled (g : Generics) (f : GParam → Toks) : Toks :=
+  if g.params.isEmpty then []
+  else angle (sepBy "," ((ltFirst g.params).map f) ++ (if g.printedTrailing then [","] else []))
+
+def Generics.declToks (g : Generics) : Toks := g.angled GParam.declToks
+def Generics.implToks (g : Generics) : Toks := g.angled GParam.implToks
+def Generics.useToks (g : Generics) : Toks := g.angled GParam.useToks
 def Generics.whereToks (g : Generics) : Toks :=
-  if g.wheres.isEmpty then [] else "where" :: sepBy "," (g.wheres.map WPred.toks)
+  if g.wheres.isEmpty then [] else "where" :: sepBy "," (g.wheres.map WPred.toks) ++ (if g.trailingWhere then [","] else [])
 
 def GParam.expandSelf (to : Ty) : GParam → GParam
   | .lt n bs => .lt n bs
@@ -302,7 +313,7 @@ def GParam.expandSelf (to : Ty) : GParam → GParam
   | .const_ n t d => .const_ n (Ty.expandSelf to t) d
 
 def Generics.expandSelf (to : Ty) (g : Generics) : Generics :=
-  { params := g.params.map (GParam.expandSelf to), wheres := g.wheres.map (WPred.expandSelf to) }
+  { g with params := g.params.map (GParam.expandSelf to), wheres := g.wheres.map (WPred.expandSelf to) }
 
 /-- `GenericParamSet::new`: the unrawed names of the type and const parameters -/
 def Generics.paramSet (g : Generics) : List String :=
@@ -462,6 +473,8 @@ deriving Repr, BEq, DecidableEq, Inhabited
 structure Fields where
   kind : FieldsKind
   fields : List Field := []
+  /-- a trailing comma after the last field, as written -/
+  trailing : Bool := false
 deriving Inhabited
 
 structure Variant where
@@ -485,6 +498,8 @@ structure ItemEnum where
   name : String
   generics : Generics := {}
   variants : List Variant := []
+  /-- a trailing comma after the last variant, as written -/
+  trailing : Bool := false
 deriving Inhabited
 
 /-- the one thing the expander reads inside an `impl` body: `type Output = …;` -/
@@ -515,9 +530,10 @@ def Field.toks (f : Field) : Toks :=
   attrsToks f.attrs ++ f.vis ++ (match f.name with | some n => [n, ":"] | none => []) ++ f.ty.toks
 
 def Fields.bodyToks (fs : Fields) : Toks :=
+  let tr : Toks := if fs.trailing && !fs.fields.isEmpty then [","] else []
   match fs.kind with
-  | .named => brace (sepBy "," (fs.fields.map Field.toks))
-  | .unnamed => paren (sepBy "," (fs.fields.map Field.toks))
+  | .named => brace (sepBy "," (fs.fields.map Field.toks) ++ tr)
+  | .unnamed => paren (sepBy "," (fs.fields.map Field.toks) ++ tr)
   | .unit => []
 
 def Variant.toks (v : Variant) : Toks :=
@@ -532,7 +548,7 @@ def ItemStruct.toks (s : ItemStruct) : Toks :=
 
 def ItemEnum.toks (e : ItemEnum) : Toks :=
   attrsToks e.attrs ++ e.vis ++ "enum" :: e.name :: e.generics.declToks ++ e.generics.whereToks ++
-    brace (sepBy "," (e.variants.map Variant.toks))
+    brace (sepBy "," (e.variants.map Variant.toks) ++ (if e.trailing && !e.variants.isEmpty then [","] else []))
 
 def ImplMember.toks : ImplMember → Toks
   | .output t => "type" :: "Output" :: "=" :: t.toks ++ [";"]
